@@ -4,6 +4,7 @@ set -e
 cd "$(dirname "$0")"
 export GOFLAGS=-mod=mod GOPROXY=off
 cp /repo/go.sum harness/go.sum
+python3 gen/genlib.py harness/libgen.go
 (cd harness && go build -tags verif -o /dev/null . )
 tmp=$(mktemp -d)
 cp spec/*.tla "$tmp"/
